@@ -332,7 +332,9 @@ class Gen:
                 while m.k in ("ann", "newtype"):
                     m = m.a[0]
                 if c.flag("has"):
-                    out["zz"] = self.json(m.a[1], depth - 1)
+                    # the field's own Python name is an additional property like any other
+                    key = "zz" if f.name in out or not top else c.pick(["zz", f.name], "addl-key")
+                    out[key] = self.json(m.a[1], depth - 1)
                 continue
             required = is_required(s, f)
             a = ext(static_alias(s, f))
@@ -365,7 +367,15 @@ class Gen:
                 if c.flag("extra"):
                     if not self.opts.additional_properties:
                         self.budget -= 1
-                    out["zz"] = c.int("i")
+                    # an undeclared key: a fresh one, the Python name of an aggregate field, or
+                    # the Python name of a field known under another external name
+                    names = ["zz"]
+                    for f in fields:
+                        if (f.flatten or f.properties is not None or ext(static_alias(s, f)) != f.name) and f.name not in names:
+                            names.append(f.name)
+                    declared = {ext(static_alias(s, f)) for f in fields if not f.flatten and f.properties is None}
+                    names = [n for n in names if n not in declared and n not in out][:3]
+                    out[names[0] if len(names) == 1 else c.pick(names, "extra-key")] = c.int("i")
 
 
 _MISSING = object()
@@ -541,8 +551,13 @@ class Val:
         if k == "map":
             out = {}
             if depth > 0:
+                kb = s.a[0]
+                while kb.k in ("ann", "newtype"):
+                    kb = kb.a[0]
                 for key in self.map_keys(s.a[0]):
                     if c.flag("has"):
+                        if kb.k == "enum":  # typed key: the member whose value is the JSON key
+                            key = getattr(self.prog.cls(kb.opt("name")), "m%d" % list(kb.a).index(key))
                         out[key] = self.val(s.a[1], depth - 1)
             self.constrain(cs, out, "obj")
             return out
